@@ -13,6 +13,7 @@ Together: a lane's result can be influenced by its neighbours only through which
 their data.  That the tiers agree to within the accuracy bound is C10/C11 and is not decided here.
 """
 import collections
+import os
 from concurrent.futures import ProcessPoolExecutor
 
 from engine import build, ir, report, lanedep, lanecheck as L
@@ -130,6 +131,260 @@ def overlaps(ty, e, lane, fn):
     return lo < lhi and llo < hi
 
 
+# ---------------------------------------------------------------- (iii) masked updates under a whole-batch any()
+def _strip(fn, o):
+    """look through bitcasts"""
+    while o['k'] == 'v':
+        i = fn['insts'][o['id']]
+        if i['op'] in ('bitcast', 'freeze') and i['ops']:
+            o = i['ops'][0]
+            continue
+        break
+    return o
+
+
+def _is_wholebatch(fn, o, depth=0):
+    """is this i1 value computed from a whole-batch mask reduction (any/all/none)"""
+    if depth > 8 or o['k'] != 'v':
+        return False
+    i = fn['insts'][o['id']]
+    op = i['op']
+    if op in ('call', 'invoke'):
+        nm = i.get('callee') or ''
+        return bool(lanedep.REDUCE_CALLS.match(nm) or lanedep.MOVMSK_CALLS.match(nm))
+    if op == 'bitcast':
+        st = parse_type(fn['insts'][i['ops'][0]['id']]['ty']) if i['ops'][0]['k'] == 'v' else None
+        if st is not None and st.kind == 'vec' and st.elem.bits == 1 and parse_type(i['ty']).kind == 'int':
+            return True
+    if op in ('icmp', 'and', 'or', 'xor', 'zext', 'trunc', 'bitcast', 'freeze', 'select'):
+        return any(_is_wholebatch(fn, x, depth + 1) for x in i['ops'])
+    return False
+
+
+def _vec_select(fn, o):
+    """(mask, then, else) if o is a per-lane select / blend of two vectors, else None"""
+    o = _strip(fn, o)
+    if o['k'] != 'v':
+        return None
+    i = fn['insts'][o['id']]
+    if i['op'] == 'select':
+        ct = parse_type(fn['insts'][i['ops'][0]['id']]['ty']) if i['ops'][0]['k'] == 'v' else None
+        if ct is not None and ct.kind == 'vec':
+            return (i['ops'][0], i['ops'][1], i['ops'][2], i)
+    if i['op'] in ('call', 'invoke') and 'blendv' in (i.get('callee') or ''):
+        return (i['ops'][2], i['ops'][1], i['ops'][0], i)
+    return None
+
+
+def _same(fn, a, b):
+    a, b = _strip(fn, a), _strip(fn, b)
+    if a['k'] == 'c' and b['k'] == 'c':
+        return a == b
+    return a['k'] == b['k'] and ((a['k'] == 'v' and a['id'] == b['id']) or (a['k'] == 'a' and a['i'] == b['i']))
+
+
+def masked_updates(cfgname):
+    """At the join of `if (any(M)) { ... }`: a value that is rewritten inside the block by a per-lane select must keep its
+    previous value in the lanes the select does not take -- select(m, new, OLD) -- otherwise a lane that does not belong
+    to M changes its value depending on whether some neighbour made any(M) true."""
+    c = CF.BY_NAME[cfgname]
+    text, names = c14.math_tu(c.arch)
+    ll, err = build.compile_tu(text, c.flags)
+    if ll is None:
+        return {'cfg': cfgname, 'broken': 'math wrapper TU does not compile'}
+    res = scan_masked_updates(ir.load_ll(ll))
+    res['cfg'] = cfgname
+    # the positive example: the rule must report it (and must accept its corrected twin) on every run
+    ptext = open(os.path.join(os.path.dirname(os.path.dirname(os.path.abspath(__file__))), 'catalogue', 'positive', 'lost_update.cpp')).read().replace('ARCH', c.arch)
+    pll, perr = build.compile_tu(ptext, c.flags)
+    if pll is None:
+        res['positive'] = 'does not compile: %s' % perr[-300:]
+    else:
+        pr = scan_masked_updates(ir.load_ll(pll))
+        fired = [x[0] for x in pr['bad']]
+        wrongmask = set(x[0] for x in pr.get('impl', []) if not x[2])
+        if wrongmask != set(['positive_wrong_mask']):
+            res['positive'] = 'mask-implication rule reported %s on the positive example (expected exactly positive_wrong_mask)' % sorted(wrongmask)
+            return res
+        res['positive'] = 'ok' if set(fired) == set(['positive_lost_update']) and pr['ok'] >= 1 else 'rule reported %s on the positive example (expected exactly positive_lost_update; %d accepted)' % (fired, pr['ok'])
+    return res
+
+
+def scan_masked_updates(mod):
+    res = {'sites': 0, 'ok': 0, 'bad': [], 'oks': []}
+    from engine import cfg as CFGM
+    for n, f in mod.functions.items():
+        if f.get('decl') or not f['blocks']:
+            continue
+        try:
+            loops, _irr = CFGM.natural_loops(f)
+            headers = set(lp.header for lp in loops)
+        except (KeyError, ValueError):
+            headers = set()
+        idom, _rpo, _pred = CFGM.dominators(f, CFGM.successors(f))
+        for b in f['blocks']:
+            for inst in b['insts']:
+                pairs = []
+                if inst['op'] == 'phi' and b['id'] in headers:
+                    continue                              # a loop-carried value, not the join of an if-region
+                if inst['op'] == 'phi' and len(inst['incoming']) == 2 and parse_type(inst['ty']).kind == 'vec':
+                    # a join of a conditional region entered on a whole-batch test
+                    for k in (0, 1):
+                        skip_bb = inst['incoming'][k]['bb']
+                        term = [x for x in f['blocks'] if x['id'] == skip_bb][0]['insts'][-1]
+                        if term['op'] == 'br' and len(term['ops']) == 3 and _is_wholebatch(f, term['ops'][0]) and b['id'] in (term['ops'][1]['id'], term['ops'][2]['id']) \
+                                and skip_bb != inst['incoming'][1 - k]['bb'] and CFGM.dominates(idom, skip_bb, inst['incoming'][1 - k]['bb']):
+                            # the block that tests any(M) dominates the region whose exit is the other incoming edge
+                            pairs.append((inst['incoming'][k]['v'], inst['incoming'][1 - k]['v'], term['ops'][0]))
+                elif inst['op'] == 'select' and parse_type(inst['ty']).kind == 'vec' and inst['ops'][0]['k'] == 'v' and parse_type(f['insts'][inst['ops'][0]['id']]['ty']).kind != 'vec' and _is_wholebatch(f, inst['ops'][0]):
+                    # the same region if-converted by the compiler: select(any(M), new, old) either way round
+                    pairs.append((inst['ops'][2], inst['ops'][1], inst['ops'][0]))
+                    pairs.append((inst['ops'][1], inst['ops'][2], inst['ops'][0]))
+                for (old, new, wb_cond) in pairs:
+                    old_is_const = _strip(f, old)['k'] == 'c'
+                    vs = _vec_select(f, new)
+                    if vs is None:
+                        continue                          # not a per-lane update (whole value recomputed): no claim
+                    res['sites'] += 1
+                    w = vs[2]
+                    site = vs[3]
+                    hops = 0
+                    while not _same(f, w, old) and hops < 8:
+                        nxt = _vec_select(f, w)
+                        if nxt is None:
+                            break
+                        w = nxt[2]
+                        hops += 1
+                    if _same(f, w, old):
+                        res['ok'] += 1
+                        res['oks'].append((n, _src_user(site)))
+                        # does the select's mask imply the mask whose any() guards the region: every conjunct of M occurs in m
+                        M = _reduced_mask(f, wb_cond) if wb_cond is not None else None
+                        if M is not None:
+                            cm, cM = _conjuncts(f, vs[0]), _conjuncts(f, M)
+                            res.setdefault('impl', []).append((n, _src_user(site), cM <= cm))
+                    elif old_is_const:
+                        res['sites'] -= 1                 # an initial constant that is not kept: nothing to preserve
+                    elif inst['op'] == 'select' and _vec_select(f, old) is not None and _chain_ends(f, old, new):
+                        res['sites'] -= 1                 # the other orientation of an if-converted region
+                    elif _strip(f, w)['k'] != 'c' and any(_same(f, bb_, w) for bb_ in _bases(f, old)) and not _same(f, old, w):
+                        # LOST UPDATE: the old value is base w plus masked updates; the new value restarts from the same
+                        # base w without going through the old value: lanes updated before and not re-selected now revert
+                        res['bad'].append((n, c14.src_of(site), c14.src_of(inst), _src_user(site)))
+                    else:
+                        res['other'] = res.get('other', 0) + 1
+    return res
+
+
+def _bases(fn, v, depth=0, seen=None):
+    """the values a chain of masked updates starts from: follow the else-operand of per-lane selects and both incoming
+    values of merges"""
+    seen = set() if seen is None else seen
+    v = _strip(fn, v)
+    if v['k'] != 'v' or depth > 10 or v['id'] in seen:
+        return [v]
+    seen.add(v['id'])
+    vs = _vec_select(fn, v)
+    if vs is not None:
+        return _bases(fn, vs[2], depth + 1, seen)
+    i = fn['insts'][v['id']]
+    if i['op'] == 'phi':
+        out = []
+        for inc in i['incoming']:
+            out += _bases(fn, inc['v'], depth + 1, seen)
+        return out
+    return [v]
+
+
+def _mask_root(fn, o):
+    """look through the representation changes of a lane mask (sext / bitcast / icmp slt x,0 / icmp ne x,0)"""
+    for _ in range(8):
+        o = _strip(fn, o)
+        if o['k'] != 'v':
+            return o
+        i = fn['insts'][o['id']]
+        if i['op'] in ('sext', 'zext', 'trunc') and i['ops']:
+            o = i['ops'][0]
+            continue
+        if i['op'] == 'icmp' and i.get('pred') in ('slt', 'ne') and i['ops'][1]['k'] == 'c' and ('zero' in i['ops'][1] or i['ops'][1].get('int') in (0, '0')):
+            o = i['ops'][0]
+            continue
+        return o
+    return o
+
+
+def _conjuncts(fn, o, depth=0):
+    """the set of instruction ids / argument keys whose conjunction the mask is"""
+    o = _mask_root(fn, o)
+    if o['k'] != 'v' or depth > 6:
+        return set([(o['k'], o.get('id', o.get('i', repr(sorted(o.items()))[:40])))])
+    i = fn['insts'][o['id']]
+    if i['op'] == 'and':
+        return _conjuncts(fn, i['ops'][0], depth + 1) | _conjuncts(fn, i['ops'][1], depth + 1)
+    if i['op'] in ('call', 'invoke') and 'pand' in (i.get('callee') or ''):
+        return _conjuncts(fn, i['ops'][0], depth + 1) | _conjuncts(fn, i['ops'][1], depth + 1)
+    return set([('v', o['id'])])
+
+
+def _reduced_mask(fn, cond, depth=0):
+    """the lane mask whose any()/none() the whole-batch condition tests (None if not a plain any/none)"""
+    if depth > 8 or cond['k'] != 'v':
+        return None
+    i = fn['insts'][cond['id']]
+    op = i['op']
+    if op in ('call', 'invoke'):
+        nm = i.get('callee') or ''
+        if lanedep.MOVMSK_CALLS.match(nm):
+            return i['ops'][0]
+        if lanedep.REDUCE_CALLS.match(nm):
+            if 'ptest' in nm or 'vtest' in nm:
+                a, b = _strip(fn, i['ops'][0]), _strip(fn, i['ops'][1])
+                if a == b or (a['k'] == 'v' and b['k'] == 'v' and a['id'] == b['id']):
+                    return i['ops'][0]
+                return None
+            return i['ops'][0]
+    if op == 'bitcast':
+        return i['ops'][0]
+    if op in ('icmp', 'zext', 'trunc', 'freeze'):
+        for x in i['ops']:
+            r_ = _reduced_mask(fn, x, depth + 1)
+            if r_ is not None:
+                return r_
+    return None
+
+
+def _chain_base(fn, v):
+    w = v
+    for _ in range(8):
+        nxt = _vec_select(fn, w)
+        if nxt is None:
+            return w
+        w = nxt[2]
+    return None
+
+
+def _src_user(inst):
+    """outermost user-code frame of the instruction (the kernel line, not the select wrapper)"""
+    fr = [(f_, l_) for (f_, l_, fn_) in inst.get('dbg', []) if 'generic/' in f_ and l_]
+    if not fr:
+        return '?'
+    f_, l_ = fr[0]
+    i = f_.find('include/xsimd/')
+    return '%s:%d' % (f_[i + len('include/xsimd/'):] if i >= 0 else f_, l_)
+
+
+def _chain_ends(fn, v, target):
+    w = v
+    for _ in range(8):
+        if _same(fn, w, target):
+            return True
+        nxt = _vec_select(fn, w)
+        if nxt is None:
+            return False
+        w = nxt[2]
+    return False
+
+
 def run(a):
     r = report.Run('C13', a.tier, 'proof')
     nob = 0
@@ -193,6 +448,34 @@ def run(a):
                 nob += 1
                 r.violation('math|%s|%s' % (n, m['cfg']), 'output lane %d of %s (%s) depends on %s%s (%d lanes affected)' % (
                     lane, n, m['cfg'], '; '.join(atoms[:3]), ' -- first seen at %s' % where if where else '', nbad), {'fn': n, 'cfg': m['cfg'], 'lane': lane, 'atoms': atoms, 'source': where})
+    # ---- (iii) masked updates under whole-batch any()
+    with ProcessPoolExecutor(max_workers=3) as ex:
+        for m in ex.map(masked_updates, MATH_CONFIGS):
+            if 'broken' in m:
+                r.broke(m['broken'])
+                continue
+            if m.get('positive') != 'ok':
+                r.broke('%s: lost-update rule self-test: %s' % (m['cfg'], m.get('positive')))
+            for (n, where) in m['oks']:
+                nob += 1
+                stats['masked update keeps the old value'] += 1
+            for (n, where, holds) in sorted(set(m.get('impl', []))):
+                if not holds:
+                    nob += 1
+                    r.violation('masked-update-mask|%s|%s|%s' % (n, where, m['cfg']),
+                                'in %s (%s) the per-lane select at %s inside an `if (any(M))` block uses a mask that does not imply M: lanes that do not satisfy M are rewritten whenever a NEIGHBOUR makes any(M) true' % (n, m['cfg'], where),
+                                {'fn': n, 'cfg': m['cfg'], 'source': where})
+                else:
+                    stats['update mask implies the guard mask'] += 1
+            for bad in sorted(set(m['bad'])):
+                nob += 1
+                r.violation('masked-update|%s|%s|%s' % (bad[0], bad[3], m['cfg']),
+                            'in %s (%s) the value rewritten at %s inside an `if (any(mask))` block restarts from the base of the earlier masked updates instead of from its previous value: lanes updated before and not selected here change when a NEIGHBOUR makes any(mask) true' % (bad[0], m['cfg'], bad[3]),
+                            {'fn': bad[0], 'cfg': m['cfg'], 'source': bad[3]})
+            if len(samples) < 10 and m['oks']:
+                samples.append({'obligation': 'masked-update|%s|%s|%s' % (m['oks'][0][0], m['oks'][0][1], m['cfg']), 'rule': 'select(m, new, OLD) at the join of if(any(M)): lanes outside m keep the value they had', 'verdict': 'kept'})
+    if stats['masked update keeps the old value'] < 90:
+        r.broke('masked-update rule found only %d sites' % stats['masked update keeps the old value'])
     if stats['lane-local'] < 5000 or stats['math lane-local'] < 500:
         r.broke('coverage below the floor: %s' % dict(stats))
     nbad = len(set(k for (k, w, d) in r.violations)) + len(set(x[1] for x in r.known_hits))
@@ -200,7 +483,7 @@ def run(a):
            'trusted_base': ['clang 14 -O2 translation of the headers', 'lane-term normaliser (engine/terms.py, lanes.py) for the exact operations',
                             'engine/lanedep.py: cell-granular dependence fixpoint with post-dominator control dependence; the table of element-wise intrinsics (ELEMWISE_CALLS)'],
            'counts': dict(stats), 'undecided': len(undec), 'undecided_list': undec[:100], 'samples': samples, 'evaluations': nob, 'distinct_nontrivial': nob - nbad,
-           'rule': '(i) exact element-wise ops x types x 21 configurations from lane terms; (ii) %d math wrappers x %s by dependence fixpoint' % (len(c14.math_tu('xsimd::sse2')[1]), MATH_CONFIGS),
+           'rule': '(i) exact element-wise ops x types x 21 configurations from lane terms; (ii) %d math wrappers x %s by dependence fixpoint; (iii) lost-update rule at the joins of if(any(M)) regions of the same wrappers' % (len(c14.math_tu('xsimd::sse2')[1]), MATH_CONFIGS),
            'exhaustive': True, 'headers_sha256': build.headers_hash()}
-    return r.finish(cov, ['cross-lane CONTROL through any()/all()/none() is allowed (tier selection); that tiers agree within the accuracy bound is C10/C11 and not decided',
+    return r.finish(cov, ['cross-lane CONTROL through any()/all()/none() is allowed (tier selection); that tiers agree within the accuracy bound is C10/C11 and not decided -- except for the lost-update rule (iii): a per-lane select inside an if(any(M)) block that restarts from the base of earlier masked updates is reported',
                           'the elementary functions are analysed on sse4_1/avx2/avx512f; their per-architecture primitives are covered by part (i)'])
